@@ -223,26 +223,48 @@ def run_vvmul(ctx, p):
 
 
 def run_explog(ctx, p):
+    """exp(log(q)) = q and log(exp(q)) = q on the Quaternion class; 'cls' selects the receiver: a general Quaternion, a
+    UnitQuaternion (either sign of the scalar part; its log is the one a subclass override would replace) or a pure
+    quaternion (scalar part exactly 0, whose exp the library returns as a UnitQuaternion)"""
     sm = S()
     q = np.asarray(p['q'], dtype=np.float64)
-    which = p['which']
-    sig = dict(api='Quaternion.' + which)
+    which, cls = p['which'], p.get('cls', 'Quaternion')
+    sig = dict(api='%s.%s' % (cls, which))
     try:
-        Q = sm.Quaternion(q)
-        if which == 'exp_log':
-            r = Q.log().exp()
+        if cls == 'UnitQuaternion':
+            Q = sm.UnitQuaternion(q, norm=False, check=False)
+            q = np.asarray(Q.A, dtype=np.float64)
         else:
-            r = Q.exp().log()
+            Q = sm.Quaternion(q)
+        if which == 'exp_log':
+            mid = Q.log()
+            r = mid.exp()
+        else:
+            mid = Q.exp()
+            r = mid.log()
         got = np.asarray(r.A, dtype=np.float64)
     except Exception as e:
         ctx.bad('explog', dict(sig, kind='raised', exc=type(e).__name__), '%s raised %r for q=%s' % (which, e, q))
         return
-    sc = max(1.0, nrm(q)) if which == 'exp_log' else max(1.0, nrm(q))
+    sc = max(1.0, nrm(q))
     d = rel(got, q, sc if which == 'exp_log' else 1.0)
     ctx.judge('explog', d <= TOL_EL, dict(sig, kind='not_inverse', sneg=bool(q[0] < 0)),
-              lambda: '%s(q) = %s for q = %s (residual %.3g, allowed 1e-6)' % (which, got, q, d))
-    ctx.cell('explog', which, 's<0' if q[0] < 0 else 's>=0', core.band(np.linalg.norm(q[1:])))
-    ctx.nontrivial(which, [float('%.9g' % v) for v in q])
+              lambda: '%s(q) = %s for %s q = %s (intermediate %s %s; residual %.3g, allowed 1e-6)' % (
+                  which, got, cls, q, type(mid).__name__, core.short(mid.A, 100), d))
+    # independent reference for the intermediate value (closed forms in longdouble)
+    v = LD(q[1:])
+    nv = np.sqrt(np.sum(v * v))
+    if which == 'exp_log':
+        nq = np.sqrt(np.sum(LD(q) ** 2))
+        want_mid = np.r_[np.log(nq), v / nv * np.arccos(np.clip(LD(q[0]) / nq, -1, 1))]
+    else:
+        want_mid = np.exp(LD(q[0])) * np.r_[np.cos(nv), v / nv * np.sin(nv)]
+    dm = rel(mid.A, np.array(want_mid, dtype=np.float64), max(1.0, float(np.max(np.abs(want_mid)))))
+    ctx.judge('explog', dm <= TOL_EL, dict(sig, kind='intermediate_differs_from_closed_form', sneg=bool(q[0] < 0)),
+              lambda: '%s of %s %s is %s, closed form gives %s (residual %.3g, allowed 1e-6)' % (
+                  'log' if which == 'exp_log' else 'exp', cls, q, core.short(mid.A, 100), np.array(want_mid, dtype=np.float64), dm))
+    ctx.cell('explog', which, cls, 's<0' if q[0] < 0 else ('s=0' if q[0] == 0 else 's>0'), core.band(np.linalg.norm(q[1:])))
+    ctx.nontrivial(which, cls, [float('%.9g' % v) for v in q])
 
 
 def run_dual(ctx, p):
@@ -265,9 +287,17 @@ def run_dual(ctx, p):
             ctx.cell('dual', which)
             ctx.nontrivial('dualnorm', [float('%.9g' % v) for v in T.reshape(-1)])
             return
-        a, b, c = (np.asarray(x, dtype=np.float64) for x in (p['a'], p['b'], p['c']))     # 8-vectors
-        DQ = lambda v: sm.DualQuaternion(sm.Quaternion(v[:4]), sm.Quaternion(v[4:]))
-        A, Bq, C = DQ(a), DQ(b), DQ(c)
+        a, b, c = (np.asarray(x, dtype=np.float64) for x in (p['a'], p['b'], p['c']))     # 8-vectors, or 4x4 rigid motions
+        kinds = p.get('kinds', 'ggg')      # per operand: g = general DualQuaternion, u = UnitDualQuaternion built from an SE3
+
+        def DQ(v, k):
+            if k == 'u':
+                return sm.UnitDualQuaternion(sm.SE3(v.reshape(4, 4)))
+            return sm.DualQuaternion(sm.Quaternion(v[:4]), sm.Quaternion(v[4:]))
+        A, Bq, C = DQ(a, kinds[0]), DQ(b, kinds[1]), DQ(c, kinds[2])
+        # the operand data the identities are judged on is what the objects hold
+        a, b, c = (np.asarray(x.vec, dtype=np.float64) for x in (A, Bq, C))
+        sig['kinds'] = kinds if which == 'assoc' else kinds[:2] if which in ('matrix', 'addsub') else kinds[:1]
 
         def refmul(x, y):
             return np.r_[ref.qmul(x[:4], y[:4]), LD(ref.qmul(x[:4], y[4:])) + LD(ref.qmul(x[4:], y[:4]))]
@@ -291,8 +321,8 @@ def run_dual(ctx, p):
         return
     d = max(rel(got, want, sc), rel(got, np.array(refv, dtype=np.float64), sc))
     ctx.judge('numeric', d <= TOL, dict(sig, kind='identity_residual'), lambda: 'dual quaternion %s: relative residual %.3g; a=%s b=%s' % (which, d, a, b))
-    ctx.cell('dual', which)
-    ctx.nontrivial('dual', which, [float('%.9g' % v) for v in np.r_[a, b]])
+    ctx.cell('dual', which, kinds)
+    ctx.nontrivial('dual', which, kinds, [float('%.9g' % v) for v in np.r_[a, b]])
 
 
 # ----------------------------------------------------------------------------- symbolic
@@ -416,17 +446,27 @@ def run(ctx):
             ctx.sample(dict(case='num', **p))
     for _ in range(ctx.scale(2500, 40000)):
         which = ['exp_log', 'log_exp'][rng.integers(2)]
+        cls = 'Quaternion'
+        r = rng.random()
         if which == 'exp_log':
             q = gen.vec(rng, 4, 1e-3, 1e3)
-            if rng.random() < 0.3:
+            if r < 0.3:
                 q[0] = gen.sign(rng) * gen.logu(rng, 1e-6, 1e-1)
+            elif r < 0.6:      # unit quaternion receiver, both hemispheres, rotation angle over (0, 2 pi)
+                cls = 'UnitQuaternion'
+                th = rng.uniform(1e-3, math.pi - 1e-3)
+                q = np.r_[math.cos(th), math.sin(th) * gen.unit_axis(rng)]
         else:
             v = gen.unit_axis(rng) * rng.uniform(1e-3, math.pi - 1e-3)
             q = np.r_[gen.sign(rng) * gen.logu(rng, 1e-3, 5.0), v]
-        drive(RUNNERS, ctx, 'explog', dict(q=q, which=which))
+            if r < 0.4:        # pure quaternion: exp is returned as a UnitQuaternion, whose log must invert it
+                q[0] = 0.0
+        drive(RUNNERS, ctx, 'explog', dict(q=q, which=which, cls=cls))
     for _ in range(ctx.scale(1200, 20000)):
         which = ['assoc', 'matrix', 'conj', 'addsub', 'unit_norm', 'unit_norm'][rng.integers(6)]
         if which == 'unit_norm':
             drive(RUNNERS, ctx, 'dual', dict(which=which, T=gen.se3(rng, hi=1e3)))
         else:
-            drive(RUNNERS, ctx, 'dual', dict(which=which, a=gen.vec(rng, 8, 1e-3, 1e3), b=gen.vec(rng, 8, 1e-3, 1e3), c=gen.vec(rng, 8, 1e-3, 1e3)))
+            kinds = ''.join('gu'[int(rng.random() < 0.35)] for _ in range(3))
+            ops = [gen.se3(rng, hi=1e2).reshape(-1) if k == 'u' else gen.vec(rng, 8, 1e-3, 1e3) for k in kinds]
+            drive(RUNNERS, ctx, 'dual', dict(which=which, a=ops[0], b=ops[1], c=ops[2], kinds=kinds))
